@@ -763,6 +763,13 @@ pub fn gen_reject(t: &mut Tape) -> LdlCase {
                 let mut m = c.a.to_csc();
                 m.set_entry((row, col), 1.5);
                 c.a = Raw::from_csc(&m);
+                // storage order inside a column is not part of "upper triangular": sometimes store the
+                // column unsorted so that the offending entry is not the last one
+                if t.coin() {
+                    let (f, l) = (c.a.colptr[col], c.a.colptr[col + 1]);
+                    c.a.rowval[f..l].reverse();
+                    c.a.nzval[f..l].reverse();
+                }
             }
         }
         2 => {
